@@ -1,0 +1,50 @@
+// Copyright 2022 The Go Authors. All rights reserved.
+// Use of this source code is governed by a BSD-style
+// license that can be found in the LICENSE file.
+
+//go:build verif
+
+// Machine-checked contracts for package benchunit (//@ lines, read by
+// /verif/gocv).  Compiled only under the "verif" tag; comment-only.
+
+package benchunit
+
+// tidyUnitUncached is a pure function of its argument (it only reads the
+// string); its two results are written tidyUnitUncached_0/_1 in specifications.
+//@ func tidyUnitUncached(unit string) (tidied string, factor float64)
+//@   props C04
+//@   opt functional
+//@   trusted
+
+// The cache maps a unit to exactly what the slow path computes for it.
+//@ pure func tidyCacheOK(c *sync.Map) bool = forall u string :: has(syncmap(c), iface(u)) ==>
+//@     typeis(syncmap(c)[iface(u)], *tidyEntry) && as(syncmap(c)[iface(u)], *tidyEntry) != nil &&
+//@     ref(as(syncmap(c)[iface(u)], *tidyEntry)) <= alloc &&
+//@     as(syncmap(c)[iface(u)], *tidyEntry).tidied == tidyUnitUncached_0(u) &&
+//@     bits(as(syncmap(c)[iface(u)], *tidyEntry).factor, tidyUnitUncached_1(u))
+
+//@ pure func plainUnit(unit string) bool = unit == "B/op" || unit == "allocs/op" ||
+//@     (unit != "ns/op" && unit != "MB/s" && !strings.Contains(unit, "ns") && !strings.Contains(unit, "MB"))
+
+//@ func tidyUnit(unit string) (tidied string, factor float64)
+//@   props C04
+//@   requires tidyCacheOK(addr(tidyCache))
+//@   modifies syncmap(addr(tidyCache))
+//@   ensures tidyCacheOK(addr(tidyCache))
+//@   ensures unit == "ns/op" ==> tidied == "sec/op" && factor == 1e-9
+//@   ensures unit == "MB/s" ==> tidied == "B/s" && factor == 1e6
+//@   ensures plainUnit(unit) ==> tidied == unit && factor == 1.0
+//@   ensures unit != "ns/op" && unit != "MB/s" && !plainUnit(unit) ==> tidied == tidyUnitUncached_0(unit) && bits(factor, tidyUnitUncached_1(unit))
+
+// Tidy multiplies by the unit's factor; its results are functions of its
+// arguments (Tidy_0, Tidy_1 in specifications) given a coherent cache.
+//@ func Tidy(value float64, unit string) (tidiedValue float64, tidiedUnit string)
+//@   props C04
+//@   opt functional
+//@   requires tidyCacheOK(addr(tidyCache))
+//@   modifies syncmap(addr(tidyCache))
+//@   ensures tidyCacheOK(addr(tidyCache))
+//@   ensures unit == "ns/op" ==> tidiedUnit == "sec/op" && bits(tidiedValue, value * 1e-9)
+//@   ensures unit == "MB/s" ==> tidiedUnit == "B/s" && bits(tidiedValue, value * 1e6)
+//@   ensures plainUnit(unit) ==> tidiedUnit == unit && bits(tidiedValue, value * 1.0)
+//@   ensures unit != "ns/op" && unit != "MB/s" && !plainUnit(unit) ==> tidiedUnit == tidyUnitUncached_0(unit) && bits(tidiedValue, value * tidyUnitUncached_1(unit))
